@@ -156,7 +156,7 @@ def build_data(s):
 
 def kernel2(aspec):
     """Callable with KernelRIM's convention f(X, Y)."""
-    return lambda X, Y: 1.5 * pairwise_kernels(X, Y, metric=aspec["name"], **aspec["params"])
+    return gens.flavour(lambda X, Y: 1.5 * pairwise_kernels(X, Y, metric=aspec["name"], **aspec["params"]), aspec)
 
 
 def describe(s):
@@ -225,6 +225,8 @@ def build(s, X=None):
             kw[key + "_params"] = dict(a["params"]) if a["params"] else None  # a fresh dict per estimator
         elif a["form"] == "callable":
             kw[key] = gens.callable_affinity(a)
+            if a.get("aseed", 0) % 2:
+                kw[key + "_params"] = {"gamma": 0.5}  # documented: ignored (with a warning) next to a callable
         else:
             kw[key] = "precomputed"
             y = gens.ref_affinity_for_form(a, X)
@@ -235,6 +237,8 @@ def build(s, X=None):
             kw["base_kernel_params"] = dict(bk["params"]) if bk["params"] else None
         else:
             kw["base_kernel"] = kernel2(bk)
+            if bk.get("aseed", 0) % 2:
+                kw["base_kernel_params"] = {"gamma": 0.5}  # documented: ignored (with a warning) next to a callable
     if cls == "Douglas" and s.get("feature_mask") is not None:
         kw["feature_mask"] = np.array(s["feature_mask"], dtype=bool)
     est = CLASSES[cls](**number_types(kw, s.get("ntype")))
@@ -357,7 +361,7 @@ def kauri_callable(k):
     """Callable kernel with Kauri's convention f(x, y) on pairs of rows."""
     from sklearn.metrics.pairwise import PAIRWISE_KERNEL_FUNCTIONS
     f = PAIRWISE_KERNEL_FUNCTIONS[k["name"]]
-    return lambda a, b: 1.5 * float(f(a.reshape(1, -1), b.reshape(1, -1))[0, 0])
+    return gens.flavour(lambda a, b: 1.5 * float(f(a.reshape(1, -1), b.reshape(1, -1))[0, 0]), k)
 
 
 def kauri_ref_kernel(s, X):
